@@ -44,8 +44,8 @@ Theorem C08_requests_unaffected : forall (e : ep) (c : cfg) (r : N), (forall n, 
 Proof. exact requests_unaffected. Qed.
 Print Assumptions C08_requests_unaffected.
 
-Theorem C08_fixed_error_bound : forall (lim : N) (i : id) (e : errobj), In e (fixed_errors lim) -> blen (error_response i e) <= 132 + blen (print_N lim) + blen (ser_id i).
-Proof. exact fixed_error_bound. Qed.
+Theorem C08_fixed_error_bound : forall (lim : N) (i : id) (e : errobj), lim < 2 ^ 64 -> In e (fixed_errors lim) -> blen (error_response i e) <= 152 + blen (ser_id i).
+Proof. exact fixed_error_bound_u64. Qed.
 Print Assumptions C08_fixed_error_bound.
 
 (* the known finding, in the model: limit 60, an ordinary call with this id and result is replaced by -32008,
